@@ -17,8 +17,9 @@ from collections import Counter
 from .kernel import HarnessError, silence_logging
 
 VERIF = os.path.dirname(os.path.dirname(os.path.abspath(__file__)))
-REPLAY_DIR = os.path.join(VERIF, "replays")
-EVIDENCE_DIR = os.path.join(VERIF, "evidence")
+_OUT = os.environ.get("VERIF_OUT_DIR") or VERIF  # scratch runs (mutants, self-tests) write elsewhere
+REPLAY_DIR = os.path.join(_OUT, "replays")
+EVIDENCE_DIR = os.path.join(_OUT, "evidence")
 FINDINGS_FILE = os.path.join(VERIF, "known_findings.json")
 RUN_TIMEOUT_S = 120
 
